@@ -104,7 +104,7 @@ theorem closed_step {t t' : Tracker} {pend pend' : Nat × Nat → Prop} (hf : t'
 
 /-- `Rel` for a state that differs from a justified one only at slots that went from undecided to decided -/
 theorem rel_of_changes {H' : List Op} {t t' : Tracker} (hf : t'.first = t.first) (hp : t'.parents = t.parents)
-    (slot : ∀ s, t.first ≤ s → SlotOK H' s (t.status s))
+    (slot : ∀ s, t.first ≤ s → t'.status s = t.status s → SlotOK H' s (t.status s))
     (par : ∀ c p, t.first ≤ c.1 → (t.parents c = some p ↔ LinkH H' c p))
     (wdec : 1 ≤ t.first → Dec (t.status t.first))
     (hch : ∀ x, t'.status x = t.status x ∨ (Dec (t'.status x) ∧ (t.first ≤ x → SlotOK H' x (t'.status x))))
@@ -113,7 +113,7 @@ theorem rel_of_changes {H' : List Op} {t t' : Tracker} (hf : t'.first = t.first)
   · intro s hsw
     rw [hf] at hsw
     rcases hch s with e | ⟨_, ok⟩
-    · rw [e]; exact slot s hsw
+    · rw [e]; exact slot s hsw e
     · exact ok hsw
   · intro c p hcw
     rw [hf] at hcw
@@ -156,7 +156,7 @@ theorem walk_rel : ∀ (f : Nat) (t : Tracker) (src hc : Nat) (blk : Nat × Nat)
       rename_i hlow
       refine ⟨t, ev, hr.symm, ?_⟩
       have hsrc := w.early sf hs' hs hlow
-      refine rel_of_changes rfl rfl w.slot w.par w.wdec (fun _ => Or.inl rfl) ?_
+      refine rel_of_changes rfl rfl (fun s h _ => w.slot s h) w.par w.wdec (fun _ => Or.inl rfl) ?_
       refine closed_step rfl rfl (fun _ _ => rfl) w.closed ?_
       intro c p h1 h2 h3 _ h5
       rcases h5 with h5 | h5
@@ -199,7 +199,7 @@ theorem walk_rel : ∀ (f : Nat) (t : Tracker) (src hc : Nat) (blk : Nat × Nat)
       have heq := sf.final_fun (blk.1, hh) blk (hold.mono (hs.trans hs')) (hblkF.mono hs') rfl
       have hh2 : hh = blk.2 := by rw [← heq]
       refine ⟨hh2, ?_⟩
-      refine rel_of_changes (t := t) rfl rfl w.slot w.par w.wdec ?_ ?_
+      refine rel_of_changes (t := t) rfl rfl (fun s h _ => w.slot s h) w.par w.wdec ?_ ?_
       · intro x
         by_cases hx : blk.1 < x ∧ x < src
         · right
@@ -321,7 +321,7 @@ theorem walk_rel : ∀ (f : Nat) (t : Tracker) (src hc : Nat) (blk : Nat × Nat)
       · -- no parent known: done
         rename_i hp
         refine ⟨_, _, hr.symm, ?_⟩
-        refine rel_of_changes (t := t) rfl rfl w.slot w.par w.wdec hch ?_
+        refine rel_of_changes (t := t) rfl rfl (fun s h _ => w.slot s h) w.par w.wdec hch ?_
         refine closed_step (t := t) rfl rfl hsame2 w.closed ?_
         intro c q h1 h2 h3 _ h5
         rcases h5 with h5 | h5
